@@ -98,6 +98,13 @@ func init() {
 						if ep > st.FinalizedCheckpoint.Epoch+c.Sp.MIN_EPOCHS_TO_INACTIVITY_PENALTY+1 {
 							b.Inc("epochs_in_leak")
 						}
+						nSlashed := 0
+						for i := range st.Validators {
+							if st.Validators[i].Slashed {
+								nSlashed++
+							}
+						}
+						b.Max("max_percent_of_registry_slashed_"+sc.Family, int64(100*nSlashed/len(st.Validators)))
 						for i := range st.Validators {
 							v := &st.Validators[i]
 							if v.Slashed {
@@ -140,7 +147,8 @@ func init() {
 		Required: []string{"slots_compared", "epoch_boundaries_compared", "finalized_advanced", "justified_advanced", "epochs_in_leak", "obs_slashed_validators", "obs_exiting_validators", "obs_effective_balance_below_max",
 			"upgrade_compared_altair", "upgrade_compared_bellatrix", "upgrade_compared_capella", "upgrade_compared_deneb",
 			"refspec_finalize_rule_1_bits234_source4", "refspec_finalize_rule_2_bits23_source3", "refspec_finalize_rule_3_bits123_source3", "refspec_finalize_rule_4_bits12_source2",
-			"refspec_finalize_rule_3_with_old_previous_ne_old_current", "refspec_epochs_with_ejections", "refspec_deneb_epochs_with_more_ejections_than_the_activation_cap_below_churn_limit"},
+			"refspec_finalize_rule_3_with_old_previous_ne_old_current", "refspec_epochs_with_ejections", "refspec_deneb_epochs_with_more_ejections_than_the_activation_cap_below_churn_limit",
+			"refspec_epochs_with_more_ejections_than_churn_limit", "refspec_decrease_balance_clamped_at_zero"},
 	})
 }
 
